@@ -70,7 +70,7 @@ def in_space(cp: int, conv: bool) -> bool:
 def case_cps(case: dict) -> list:
     if "cps" in case:
         return [cp for cp in case["cps"] if in_space(cp, case["conv"])]
-    return [cp for cp in range(case["lo"], case["hi"]) if in_space(cp, case["conv"])]
+    return [cp for cp in range(case["lo"], case["hi"], case.get("step", 1)) if in_space(cp, case["conv"])]
 
 
 def pair_strings(case: dict) -> list:
@@ -121,7 +121,44 @@ def _interleave(strings, tag):
     return out
 
 
-def build(pos: str, strings: list, conv: bool):
+DTYPES = ("categorical", "enum", "list", "object")
+
+
+class _Obj:
+    """value of a pl.Object column: displays as its text"""
+
+    def __init__(self, v):
+        self.v = v
+
+    def __str__(self):
+        return self.v
+
+    __repr__ = __str__
+
+
+def _as_dtype(name: str, values: list, dtype):
+    """the body column `values` (strings) as a polars Series of a non-String dtype whose display text carries the strings"""
+    import polars as pl
+
+    if dtype is None:
+        return pl.Series(name, values, dtype=pl.String)
+    if dtype == "categorical":
+        return pl.Series(name, values, dtype=pl.Categorical)
+    if dtype == "enum":
+        return pl.Series(name, values, dtype=pl.Enum(list(dict.fromkeys(values))))
+    if dtype == "list":
+        return pl.Series(name, [[v] for v in values], dtype=pl.List(pl.String))
+    if dtype == "object":
+        return pl.Series(name, [_Obj(v) for v in values], dtype=pl.Object)
+    raise ValueError(dtype)
+
+
+def repr_safe(s: str) -> bool:
+    """str([s]) shows s verbatim between single quotes (no repr escape, which would bring in a backslash)"""
+    return repr(s) == "'" + s + "'"
+
+
+def build(pos: str, strings: list, conv: bool, dtype=None):
     import polars as pl
     import rtflite as rtf
 
@@ -131,9 +168,9 @@ def build(pos: str, strings: list, conv: bool):
     kw = {"rtf_page": page, "rtf_column_header": []}
     if pos == "body":
         rows = (n + K_BODY - 1) // K_BODY
-        cols = {"t": [f"D{i}" for i in range(rows)]}
+        cols = [pl.Series("t", [f"D{i}" for i in range(rows)], dtype=pl.String)]
         for j in range(K_BODY):
-            cols[f"c{j}"] = [strings[i * K_BODY + j] if i * K_BODY + j < n else "pad" for i in range(rows)]
+            cols.append(_as_dtype(f"c{j}", [strings[i * K_BODY + j] if i * K_BODY + j < n else "pad" for i in range(rows)], dtype))
         return rtf.RTFDocument(df=pl.DataFrame(cols), rtf_body=rtf.RTFBody(text_convert=conv), **kw)
     if pos == "colheader":
         rows = (n + K_HEAD - 1) // K_HEAD
@@ -234,7 +271,7 @@ def observe(pos: str, doc, n: int):
                 s = i * K_BODY + j
                 if s < n:
                     obs[s] = cell_obs(r.cells[1 + j])
-                elif r.cells[1 + j].text != "pad":
+                elif r.cells[1 + j].text not in ("pad", "['pad']"):
                     problems.append(("body-pad-cell", repr(r.cells[1 + j].text)))
         if paras:
             problems.append(("body-unexpected-paragraph", repr(paras[0].text[:40])))
@@ -426,14 +463,20 @@ def eval_case(case: dict) -> dict:
     else:
         cps = case_cps(case)
         strings = [slot_string(cp, form, fill) for cp in cps]
+    dtype = case.get("dtype")
+    if dtype == "list":
+        # the display of a list value is str(list): keep the strings that it shows verbatim
+        keep = [k for k, x in enumerate(strings) if repr_safe(x)]
+        cps, strings = [cps[k] for k in keep], [strings[k] for k in keep]
     n = len(cps)
     if n == 0:
         return {"viol": [], "nt": False, "cnt": {"empty-case": 1}}
+    where = pos if dtype is None else f"{pos}[{dtype}]"
     try:
-        doc = _write_and_read(build(pos, strings, conv))
+        doc = _write_and_read(build(pos, strings, conv, dtype))
     except Exception as e:
-        return {"viol": [{"klass": None, "sig": f"encode-raised-{type(e).__name__}",
-                          "detail": f"{pos} conv={conv} U+{cps[0]:04X}..U+{cps[-1]:04X}: {type(e).__name__}: {e}"[:400]}],
+        return {"viol": [{"klass": None, "sig": f"encode-raised-{type(e).__name__}" + ("" if dtype is None else f"-{dtype}"),
+                          "detail": f"{where} conv={conv} U+{cps[0]:04X}..U+{cps[-1]:04X}: {type(e).__name__}: {e}"[:400]}],
                 "nt": False, "cnt": {"raised": 1}}
     groups: dict = {}
 
@@ -443,7 +486,7 @@ def eval_case(case: dict) -> dict:
 
     obs, problems = observe(pos, doc, n)
     for sig, detail in problems:
-        add(None, f"structure-{sig}", f"{pos} conv={conv}: {detail}")
+        add(None, f"structure-{sig}" + ("" if dtype is None else f"-{dtype}"), f"{where} conv={conv}: {detail}")
     avail = Counter((e[0], e[2]) for e in doc.errors)
     cnt = Counter()
     checked = 0
@@ -454,27 +497,33 @@ def eval_case(case: dict) -> dict:
         got, stray = o
         rc = rclass(cp)
         cnt[f"compared:{rc}"] += 1
+        if dtype == "list":
+            # how a list is displayed is not the property's business: the string must be readable inside the cell text
+            if s in got and not stray:
+                cnt[f"intact:{rc}"] += 1
+                continue
+            s = str([s])
         if got == s and not stray:
             cnt[f"intact:{rc}"] += 1
             continue
         if stray and got == s:
-            add(None, f"stray-control-{pos}-{rc}", f"{pos} conv={conv} form={form}: U+{cp:04X} {s!r} read back with extra events {stray[:3]!r}")
+            add(None, f"stray-control-{where}-{rc}", f"{where} conv={conv} form={form}: U+{cp:04X} {s!r} read back with extra events {stray[:3]!r}")
             continue
         mechs, used = classify(pos, s, got, avail) if not stray else (None, Counter())
         avail.subtract(used)
         if mechs:
             for klass in mechs:
                 cnt[f"known:{klass}"] += 1
-                add(klass, klass, f"{pos} conv={conv} form={form}: U+{cp:04X} {s!r} read back as {got!r}")
+                add(klass, klass, f"{where} conv={conv} form={form}: U+{cp:04X} {s!r} read back as {got!r}")
         else:
-            add(None, f"altered-{pos}-{rc}" + ("" if conv else "-convoff"),
-                f"{pos} conv={conv} form={form}: U+{cp:04X} {s!r} read back as {got!r}" + (f" with events {stray[:3]!r}" if stray else ""))
+            add(None, f"altered-{where}-{rc}" + ("" if conv else "-convoff"),
+                f"{where} conv={conv} form={form}: U+{cp:04X} {s!r} read back as {got!r}" + (f" with events {stray[:3]!r}" if stray else ""))
     for (code, detail), k in sorted(avail.items()):
         if k > 0:
-            add(None, f"reader-error-{code}-{pos}", f"{pos} conv={conv} form={form} U+{cps[0]:04X}..U+{cps[-1]:04X}: {k}x {code} {detail}")
+            add(None, f"reader-error-{code}-{where}", f"{where} conv={conv} form={form} U+{cps[0]:04X}..U+{cps[-1]:04X}: {k}x {code} {detail}")
     viol = [{"klass": k, "sig": sig, "detail": g["detail"] + (f"  [{g['n']} code points in this document]" if g["n"] > 1 else "")}
             for (k, sig), g in groups.items()]
-    cnt[f"checked:{pos}"] += checked
+    cnt[f"checked:{where}"] += checked
     cnt[f"checked:conv={'on' if conv else 'off'}"] += checked
     cnt[f"checked:form={form}"] += checked
     cnt["documents"] += 1
@@ -532,10 +581,13 @@ def plan(run):
                 f"{len(BOUNDARY)} class-boundary code points x 12 positions x {{on, off}} x {{whole, inner}} (inner filler pair rotated by seed). "
                 "thorough: all code points x 12 positions x {on, off} as whole strings, + inner form in body cells, + boundary layer "
                 "with every filler pair. both tiers: every ordered pair of boundary code points as a two-character string (quick: body, title; "
-                "thorough: six positions). non-trivial = the document contains a code point >= U+0080; distinct = distinct case")
+                "thorough: six positions), and body cells taken from Categorical / Enum / List(String) / Object columns (display text = str(value); "
+                "for lists: the string must be readable inside the cell text) - quick: the boundary code points, whole and inner, on and off; "
+                "thorough: additionally all of U+0080-07FF and every 257th code point. non-trivial = the document contains a code point >= U+0080; distinct = distinct case")
     run.assumptions = [
         "reader decoding rules: \\ansi without \\ansicpg = cp1252; \\uN signed 16 bit followed by \\ucN fallback characters; surrogate pairs combined",
         "U+005C, U+007B, U+007D are not in the space (raw RTF pass-through is a documented feature); ^ and _ only with conversion off",
+        "non-String body columns: Categorical, Enum, List(String), Object are covered (Struct is not: its display contains braces, i.e. raw RTF)",
         "footnote/source lines are joined by rtflite at construction; code points sit at the true start and end of the joined string and at every line boundary",
     ]
     fn = "mc.props.c10:eval_case"
@@ -554,6 +606,22 @@ def plan(run):
               for pos in (("body", "title") if quick else ("body", "colheader", "title", "footnote_table", "source_para", "page_header"))
               for conv in (True, False) for lo in range(0, len(BOUNDARY), 14)]
     run.layer("boundary-pairs", fn, pcases, chunk=2, total=len(pcases))
+
+    # body cells from columns that are not of dtype String (their display text is str(value))
+    if quick:
+        slices = [{"cps": BOUNDARY}]
+    else:
+        per = 2000 * 257
+        slices = ([{"cps": BOUNDARY}, {"lo": 0x80, "hi": 0x800}]
+                  + [{"lo": lo, "hi": min(lo + per, 0x110000), "step": 257} for lo in range(0, 0x110000, per)])
+    dcases = []
+    for dt in DTYPES:
+        for conv in (True, False):
+            for sl in slices:
+                dcases.append({"pos": "body", "dtype": dt, "conv": conv, "form": "whole", **sl})
+                for fl in fills:
+                    dcases.append({"pos": "body", "dtype": dt, "conv": conv, "form": "inner", "fill": fl, **sl})
+    run.layer("body-cells-from-non-string-columns", fn, dcases, chunk=2, total=len(dcases))
 
     def full(pos, form, convs=(True, False)):
         return [{"pos": pos, "conv": conv, "form": form, "lo": lo, "hi": hi}
@@ -584,6 +652,9 @@ def plan(run):
     if all(l["completed"] for l in run.layers) and got != exp_body and not run.viol:
         run.harness_errors.append({"layer": "accounting", "case": None,
                                    "error": f"body slots checked {got}, expected {exp_body}"})
+    for dt in DTYPES:
+        if all(l["completed"] for l in run.layers) and not run.cnt.get(f"checked:body[{dt}]") and not run.viol:
+            run.harness_errors.append({"layer": "vacuity", "case": None, "error": f"no body cell from a {dt} column was compared"})
     for need in ("latin1", "U+00B1", "bmp-low", "bmp-high", "astral", "ascii"):
         if not run.cnt.get("compared:" + need):
             run.harness_errors.append({"layer": "vacuity", "case": None, "error": f"no code point of class {need} was compared"})
